@@ -197,3 +197,20 @@ func C15MakeIndex(src, dst *c15edge) {
 		dst.comment[i] = s
 	}
 }
+
+// PEEK-IDX controls (C02).
+func C02PeekIndex(r *bufio.Reader) bool {
+	magic, err := r.Peek(2)
+	if err != nil && err != io.EOF {
+		return false
+	}
+	return magic[0] == 0x1f && magic[1] == 0x8b
+}
+
+func C02PeekChecked(r *bufio.Reader) bool {
+	magic, err := r.Peek(2)
+	if err != nil {
+		return false
+	}
+	return magic[0] == 0x1f && magic[1] == 0x8b
+}
